@@ -37,7 +37,7 @@ ASSUMPTIONS = [
     "a field value 'changes' when it is replaced by another object that is not an equal value of the same type; node-valued fields must keep the identical object",
     "registry membership may change only as specified for detach / replace (C03's subject) and is not part of the frame",
 ]
-MUST_SEE = ["registry_membership_checked", "tagless_payload_read_while_alive", "origin_algebra_on_node_origins", "comparisons_with_equal_but_distinct_origin_objects", "compiled_xpath_reused", "mutable_container_in_property", "list_valued_tuple_fields", "hash_churn_rounds", "copy_protocol_ops", "digest_size_switches", "ops", "frames_checked", "raising_ops", "watched_writes_on_new_nodes", "setattr_rejected", "delattr_rejected", "repo_tests_contract_evaluations", "deserialize_registry_hits", "failing_replace_on_suffix_twin", "transform_returns_existing_node", "transform_rebuilds_equal_node"]
+MUST_SEE = ["init_false_child_fields", "registry_membership_checked", "tagless_payload_read_while_alive", "origin_algebra_on_node_origins", "comparisons_with_equal_but_distinct_origin_objects", "compiled_xpath_reused", "mutable_container_in_property", "list_valued_tuple_fields", "hash_churn_rounds", "copy_protocol_ops", "digest_size_switches", "ops", "frames_checked", "raising_ops", "watched_writes_on_new_nodes", "setattr_rejected", "delattr_rejected", "repo_tests_contract_evaluations", "deserialize_registry_hits", "failing_replace_on_suffix_twin", "transform_returns_existing_node", "transform_rebuilds_equal_node"]
 CONFIG = {
     "quick": {"shards": 16, "histories": 30, "ops": 35, "watchdog_s": 600},
     "thorough": {"shards": 32, "histories": 200, "ops": 60, "watchdog_s": 3400},
@@ -271,6 +271,21 @@ def histories(ctx, U, state, take_frame, diff_frame):
             sp_ = tg.tree()
             handles.append(build(U, sp_))
             spec_of[id(handles[-1])] = sp_
+        if case % 3 == 1:
+            # a node whose class derives a child of its own (init=False) in __post_init__: a transform that changes only that
+            # child cannot rebuild the parent (dataclasses.replace refuses init=False fields) - and must not write into it
+            if f"{P}Derived" not in U.module.__dict__:
+                src = (
+                    f"@dataclass(frozen=True)\nclass {P}Derived({P}Expr):\n    v: int = 0\n    shadow: {P}Expr | None = field(default=None, init=False)\n\n"
+                    f"    def __post_init__(self):\n        object.__setattr__(self, 'shadow', {P}Leaf(v=self.v, s='derived'))\n        super().__post_init__()\n"
+                )
+                exec(compile(src, "<c10 derived>", "exec", dont_inherit=True), U.module.__dict__)
+                from vlib.universe import CS, FS
+
+                U.specs[f"{P}Derived"] = CS(f"{P}Derived", (f"{P}Expr",), [FS("v", "prop", "int", "int", default="0"), FS("shadow", "child", f"{P}Expr | None", "opt", (f"{P}Expr",), init=False, default="None")])
+                U.cls[f"{P}Derived"] = U.module.__dict__[f"{P}Derived"]
+            handles.append(U.cls[f"{P}List"](items=(U.module.__dict__[f"{P}Derived"](v=case), U.cls[f"{P}Leaf"](v=case + 1))))
+            ctx.count("init_false_child_fields")
         if case % 3 == 0:
             # a property typed Any that holds nested mutable containers (the node owns them)
             handles.append(U.cls[f"{P}List"](items=(U.cls[f"{P}Handle"](name="h", symbol={"b": {3, 1, 2}, "a": [2, 1], "c": {"z": 1, "y": {9, 8}}}), U.cls[f"{P}Leaf"](v=case))))
